@@ -592,6 +592,45 @@ func HasRange(e Expr) bool {
 	return false
 }
 
+// Walk calls f for e and every expression below it.
+func Walk(e Expr, f func(Expr)) {
+	if e == nil {
+		return
+	}
+	f(e)
+	switch x := e.(type) {
+	case Binary:
+		Walk(x.L, f)
+		Walk(x.R, f)
+	case Unary:
+		Walk(x.X, f)
+	case Paren:
+		Walk(x.X, f)
+	case Index:
+		Walk(x.X, f)
+		Walk(x.I, f)
+	case Dot:
+		Walk(x.X, f)
+	case Ternary:
+		Walk(x.C, f)
+		Walk(x.A, f)
+		Walk(x.B, f)
+	case Call:
+		for _, a := range x.Args {
+			Walk(a, f)
+		}
+	case ArrayLit:
+		for _, a := range x.Elems {
+			Walk(a, f)
+		}
+	case HashLit:
+		for i := range x.Keys {
+			Walk(x.Keys[i], f)
+			Walk(x.Vals[i], f)
+		}
+	}
+}
+
 // HasMultiHash reports whether the expression contains a hash literal with
 // more than one pair (the engine evaluates the pairs in key order, not in
 // written order).
